@@ -289,6 +289,32 @@ func TestVerifBounded_C15_PlantedRepeats(t *testing.T) {
 		}
 	}
 	_ = shortRec
+	// low identity thresholds: Optimise may have to fall back to a shorter seed than the minimum hit length; whatever the
+	// filter parameters, every reported hit still has to meet the requested minimum length and identity (recall is not
+	// required here: at 0.7-0.75 the planted copy is not "comfortably above" anything)
+	for k := 0; k < runs/6+1; k++ {
+		minLen := []int{100, 150}[rnd.Intn(2)]
+		minID := []float64{0.7, 0.75, 0.8}[rnd.Intn(3)]
+		bgT, bgQ := 3000+rnd.Intn(3000), 2000+rnd.Intn(2000)
+		tb := verifRandDNA(rnd, bgT)
+		qb := verifRandDNA(rnd, bgQ)
+		L := 150 + rnd.Intn(100)
+		ts := rnd.Intn(bgT - L)
+		img := verifMutate(rnd, tb[ts:ts+L], 0.98, false)
+		qs := rnd.Intn(bgQ)
+		qb = append(append(append([]byte(nil), qb[:qs]...), img...), qb[qs:]...)
+		cases++
+		hits, _, err := verifRunPALS(verifSeq("t", tb), verifSeq("q", qb), false, minLen, minID, nil)
+		totalHits += hits
+		if err != nil {
+			failed++
+			if failed <= 8 {
+				t.Errorf("low-identity run %d (target %d, query %d, minLen %d, minId %.2f): %v", k, bgT, len(qb), minLen, minID, err)
+			}
+		} else if hits > 0 {
+			nontrivial++
+		}
+	}
 	// self comparison: a sequence with an internal repeat; the trivial self match must not be reported
 	for k := 0; k < runs/4+1; k++ {
 		n := 3000 + rnd.Intn(2000)
@@ -310,5 +336,5 @@ func TestVerifBounded_C15_PlantedRepeats(t *testing.T) {
 			nontrivial++
 		}
 	}
-	fmt.Printf("BOUNDED name=C15.planted cases=%d nontrivial=%d exhaustive=false domain=\"seeded random: %d target/query pairs of random DNA (2..%d kb) with one planted repeat of length 300..800 (exact, substitutions, substitutions+indels; forward or reverse complement), minimum length 100/150/200, minimum identity 0.85/0.9/0.95, plus %d short repeats (minimum length + 4..12, one substitution 6..10 bases inside each end), plus self comparisons with an internal repeat; %d hits checked for bounds, minimum length, error bound and score <= optimal global score (+1/-3/-3) of the hit regions; the planted copy must be 80%% covered by one hit in both sequences\"\n", cases, nontrivial, runs, maxBg/1000, shortRuns, totalHits)
+	fmt.Printf("BOUNDED name=C15.planted cases=%d nontrivial=%d exhaustive=false domain=\"seeded random: %d target/query pairs of random DNA (2..%d kb) with one planted repeat of length 300..800 (exact, substitutions, substitutions+indels; forward or reverse complement), minimum length 100/150/200, minimum identity 0.85/0.9/0.95, plus %d short repeats (minimum length + 4..12, one substitution 6..10 bases inside each end), plus runs at minimum identity 0.7/0.75/0.8 (soundness of the hits only), plus self comparisons with an internal repeat; %d hits checked for bounds, minimum length, error bound and score <= optimal global score (+1/-3/-3) of the hit regions; the planted copy must be 80%% covered by one hit in both sequences\"\n", cases, nontrivial, runs, maxBg/1000, shortRuns, totalHits)
 }
